@@ -111,7 +111,7 @@ FAMILIES = {
     "sig_mid_bar": ["Tall", "Rbig", "T", "N", "B", "T", "N"],
     "partly_filled": ["N", "B", "R", "N", "B", "B", "N"],
     "specials": ["S", "N", "S", "R", "S", "N"],
-    "unfused": ["U", "U", "N", "R", "U", "N", "B", "N"],
+    "unfused": ["U", "U", "N", "Rbig", "U", "N", "B", "N"],
     "sig_then_bars": ["T", "Rbig", "B", "N", "Rbig", "Rbig", "B", "N"],
 }
 
